@@ -5,10 +5,23 @@ without the patch and FAIL with it; the pinned test-suite must show only the two
 import json, os, subprocess, sys, shutil, glob, re
 from concurrent.futures import ThreadPoolExecutor
 V = os.path.dirname(os.path.dirname(os.path.abspath(__file__)))
-cands = sorted(glob.glob('/tmp/M*_out/C??-?'))
+ROUND2 = os.environ.get('ROUND2', '0') == '1'
+if ROUND2:     # second round of independent agents M6..M10: ids get the suffixes c, d
+    cands = sorted(glob.glob('/tmp/M[6-9]_out/C??-?') + glob.glob('/tmp/M10_out/C??-?'))
+else:
+    cands = sorted(glob.glob('/tmp/M[1-5]_out/C??-?'))
+
+
+def sid_of(c):
+    b = os.path.basename(c)
+    if ROUND2:
+        b = b[:-1] + {'a': 'c', 'b': 'd'}[b[-1]]
+    return b
+
+
 only = sys.argv[1:]
 if only:
-    cands = [c for c in cands if os.path.basename(c) in only]
+    cands = [c for c in cands if sid_of(c) in only]
 run_suite = os.environ.get('SUITE', '1') == '1'
 
 
@@ -17,7 +30,7 @@ def sh(cmd, cwd=None, env=None, timeout=3600):
 
 
 def one(c):
-    sid = os.path.basename(c)
+    sid = sid_of(c)
     pid = sid.split('-')[0]
     wt = f'/tmp/seedverify_{sid}'
     sh(['git', '-C', '/repo', 'worktree', 'remove', '--force', wt])
@@ -28,7 +41,7 @@ def one(c):
         demo = os.path.join(c, 'demo.py')
         # demos sometimes hard-code their author's worktree path: rewrite to ours
         txt = open(demo).read()
-        txt2 = re.sub(r'/tmp/mut_M\d(?:_[A-Za-z0-9]+)?', wt, txt)
+        txt2 = re.sub(r'/tmp/mut_M\d+(?:_[A-Za-z0-9]+)?', wt, txt)
         demo_local = os.path.join(wt, '_seed_demo.py')
         open(demo_local, 'w').write(txt2)
         r0 = sh(['/venv/bin/python', demo_local], cwd=wt, env=env, timeout=1800)
@@ -68,8 +81,8 @@ for r in out:
         d = os.path.join(V, 'seeded', sid)
         os.makedirs(d, exist_ok=True)
         open(os.path.join(d, 'patch.diff'), 'w').write(r['patch_now'])
-        c = [x for x in cands if os.path.basename(x) == sid][0]
-        txt = re.sub(r'/tmp/mut_M\d(?:_[A-Za-z0-9]+)?', '/repo', open(os.path.join(c, 'demo.py')).read())
+        c = [x for x in cands if sid_of(x) == sid][0]
+        txt = re.sub(r'/tmp/mut_M\d+(?:_[A-Za-z0-9]+)?', '/repo', open(os.path.join(c, 'demo.py')).read())
         open(os.path.join(d, 'demo.py'), 'w').write(txt)
         if os.path.exists(os.path.join(c, 'notes.md')):
             shutil.copy(os.path.join(c, 'notes.md'), os.path.join(d, 'notes.md'))
